@@ -8,7 +8,7 @@ import tempfile
 
 from common import hx
 import transports
-from transports import Clock, Link, MemTransport, MemTransportAsync, SimHang, SimTransportError
+from transports import Clock, Link, MemTransport, MemTransportAsync, SimHang, SimTransportError, GuardLock, GuardAsyncLock
 
 
 def secs(t):
@@ -35,6 +35,30 @@ class StubSigner(object):
     def GetPublicKey(self):
         pub = b"PUB" + bytes([self.k])
         return pub.decode("ascii") if self.pub_as_str else pub
+
+
+class wall_guard(object):
+    """Wall-clock watchdog around one call into the implementation (main thread only): virtual time cannot see a real block (a leaked real
+    lock, a wait on a real primitive); after WALL_LIMIT_S the call is interrupted and counts as a hang."""
+    WALL_LIMIT_S = 120
+
+    def __enter__(self):
+        import signal
+        import threading
+        self.active = threading.current_thread() is threading.main_thread()
+        if self.active:
+            def on_alarm(signum, frame):
+                raise SimHang("no progress for %d s of wall-clock time" % self.WALL_LIMIT_S)
+            self.old = signal.signal(signal.SIGALRM, on_alarm)
+            signal.setitimer(signal.ITIMER_REAL, self.WALL_LIMIT_S)
+        return self
+
+    def __exit__(self, *a):
+        if self.active:
+            import signal
+            signal.setitimer(signal.ITIMER_REAL, 0)
+            signal.signal(signal.SIGALRM, self.old)
+        return False
 
 
 def canon_exc(exc):
@@ -110,6 +134,11 @@ class Runner(object):
         else:
             self.loop = asyncio.new_event_loop()
             self.dev = async_mod.AdbDeviceAsync(MemTransportAsync(self.link), default_transport_timeout_s=dtt, banner=scn.get("banner", b"verif"))
+        # one thread / one task: a blocking request for a held lock can never be granted; report it instead of hanging the harness
+        mk = GuardLock if impl == "sync" else GuardAsyncLock
+        self.dev._local_id_lock = mk("localId")
+        self.dev._io_manager._transport_lock = mk("transport")
+        self.dev._io_manager._store_lock = mk("store")
         for k, v in scn.get("preset", {}).items():
             if k == "lid":
                 self.dev._local_id = v
@@ -166,22 +195,24 @@ class Runner(object):
 
     # ---- running -------------------------------------------------------------------------------------------
     def call(self, fn, *a, **kw):
-        if self.impl == "sync":
-            return fn(*a, **kw)
-        return self.loop.run_until_complete(fn(*a, **kw))
+        with wall_guard():
+            if self.impl == "sync":
+                return fn(*a, **kw)
+            return self.loop.run_until_complete(fn(*a, **kw))
 
     def consume(self, gen):
         items = []
-        if self.impl == "sync":
-            for x in gen:
-                self.link.events.append("yield:" + hx(x if isinstance(x, (bytes, bytearray)) else x.encode("utf8", "surrogatepass")))
-                items.append(x)
-        else:
-            async def go():
-                async for x in gen:
+        with wall_guard():
+            if self.impl == "sync":
+                for x in gen:
                     self.link.events.append("yield:" + hx(x if isinstance(x, (bytes, bytearray)) else x.encode("utf8", "surrogatepass")))
                     items.append(x)
-            self.loop.run_until_complete(go())
+            else:
+                async def go():
+                    async for x in gen:
+                        self.link.events.append("yield:" + hx(x if isinstance(x, (bytes, bytearray)) else x.encode("utf8", "surrogatepass")))
+                        items.append(x)
+                self.loop.run_until_complete(go())
         return items
 
     def progress_cb(self, mode):
@@ -230,6 +261,16 @@ class Runner(object):
                 res = "ok none"
             elif kind == "streaming_shell":
                 gen = d.streaming_shell(op["cmd"].decode("utf8"), transport_timeout_s=tt, read_timeout_s=rt, decode=op.get("decode", True))
+                v = self.consume(gen)
+                res = "ok " + canon_val("items", v)
+            elif kind == "ss_defer":
+                # the caller obtains the generator now and iterates it later (ss_resume): nothing may happen before the iteration
+                self.deferred = d.streaming_shell(op["cmd"].decode("utf8"), transport_timeout_s=tt, read_timeout_s=rt, decode=op.get("decode", True))
+                res = "ok none"
+            elif kind == "ss_resume":
+                gen, self.deferred = getattr(self, "deferred", None), None
+                if gen is None:      # creating it failed (reported at ss_defer): iterate a fresh one so the op is still well-defined
+                    gen = d.streaming_shell(op["cmd"].decode("utf8"), transport_timeout_s=tt, read_timeout_s=rt, decode=op.get("decode", True))
                 v = self.consume(gen)
                 res = "ok " + canon_val("items", v)
             elif kind == "list":
@@ -327,7 +368,9 @@ def op_line(op, listdir_order=None):
         return "sess op root %s t=%s" % (t, tfmt(op.get("t")))
     if k == "reboot":
         return "sess op reboot fastboot=%d %s t=%s" % (1 if op.get("fastboot") else 0, t, tfmt(op.get("t")))
-    if k == "streaming_shell":
+    if k == "ss_defer":
+        return "sess op nop"
+    if k in ("streaming_shell", "ss_resume"):
         return "sess op streaming_shell cmd=%s %s decode=%d" % (hx(op["cmd"]), t, 1 if op.get("decode", True) else 0)
     if k in ("list", "stat"):
         return "sess op %s path=%s %s" % (k, hx(op["path"]), t)
